@@ -14,8 +14,11 @@ structure WF (s : St) : Prop where
   /-- every operand on the type stack has a declared slot index (`stackDeclarations->length`) -/
   decl : s.stack.length ≤ s.declLen
 
-def LocTyped (ctx : Ctx) (loc : List Val) : Prop :=
-  loc.length = ctx.localTypes.length ∧ ∀ k (h : k < loc.length) (h' : k < ctx.localTypes.length), vtOf loc[k] = ctx.localTypes[k]
+/-- locals and globals have their declared types -/
+structure LocTyped (ctx : Ctx) (loc : Store) : Prop where
+  len : loc.locals.length = ctx.localTypes.length
+  typed : ∀ k (h : k < loc.locals.length) (h' : k < ctx.localTypes.length), vtOf loc.locals[k] = ctx.localTypes[k]
+  glob : GTyped ctx loc.g
 
 /-- static result type of a numeric statement -/
 def numResTy (opcode : String) (k : EmitKind) (t1 : VT) : VT := (numSlots opcode k t1 0 t1 0).1.ty
@@ -31,17 +34,29 @@ structure NumOK (ns : NumSem) : Prop where
 structure CallOK (ns : NumSem) (ctx : Ctx) : Prop where
   arity : ∀ fn ti ft, ctx.funcTypeIdx[fn]? = some ti → ctx.types[ti]? = some ft → ft.results.length ≤ 1 →
     ns.callArity fn = some (ft.params.length, ft.results.head?.map vtOfW)
-  typed : ∀ fn n t args v, ns.callArity fn = some (n, some t) → ns.callS fn args = .val (some v) → vtOf v = t
-  refVal : ∀ fn args r, ns.callS fn args = .val r → ns.callT fn args = .val r
-  refTrap : ∀ fn args t, ns.callS fn args = .trap t → ns.callT fn args = .trap t
+  typed : ∀ fn n t args g v g', GTyped ctx g → ns.callArity fn = some (n, some t) → ns.callS fn args g = .val (some v, g') → vtOf v = t
+  pres : ∀ fn args g r, GTyped ctx g → ns.callS fn args g = .val r → GTyped ctx r.2
+  refVal : ∀ fn args g r, GTyped ctx g → ns.callS fn args g = .val r → ns.callT fn args g = .val r
+  refTrap : ∀ fn args g t, GTyped ctx g → ns.callS fn args g = .trap t → ns.callT fn args g = .trap t
   indArity : ∀ ty ft, ctx.types[ty]? = some ft → ft.results.length ≤ 1 →
     ns.indArity ty = some (ft.params.length, ft.results.head?.map vtOfW)
-  indTyped : ∀ ty n t i args v, ns.indArity ty = some (n, some t) → ns.indS ty i args = .val (some v) → vtOf v = t
-  indRefVal : ∀ ty i args r, ns.indS ty i args = .val r → ns.indT ty i args = .val r
-  indRefTrap : ∀ ty i args t, ns.indS ty i args = .trap t → ns.indT ty i args = .trap t
+  indTyped : ∀ ty n t i args g v g', GTyped ctx g → ns.indArity ty = some (n, some t) → ns.indS ty i args g = .val (some v, g') → vtOf v = t
+  indPres : ∀ ty i args g r, GTyped ctx g → ns.indS ty i args g = .val r → GTyped ctx r.2
+  indRefVal : ∀ ty i args g r, GTyped ctx g → ns.indS ty i args g = .val r → ns.indT ty i args g = .val r
+  indRefTrap : ∀ ty i args g t, GTyped ctx g → ns.indS ty i args g = .trap t → ns.indT ty i args g = .trap t
 
-def JumpOK (lab : Label) (base : Nat) (stk stkB : List Val) (locB : List Val) (σ σ' : MSt) : Prop :=
-  σ'.locals = locB ∧ SlotsBelow lab.height σ σ' ∧ stkB.take base = stk.take base ∧ lab.height ≤ stkB.length ∧
+/-- what the simulation needs to know about memory accesses: the runtime function the translator calls for an
+    opcode refines the opcode's specification (proved for the regenerated functions in C05), results are typed -/
+structure MemOK (ns : NumSem) : Prop where
+  loadRef : ∀ opcode fn rt m ea v, lookupAssoc Gen.loadTable opcode = some (fn, rt) → ns.loadS opcode m ea = .val v →
+    ns.loadT fn m ea = .val v ∧ vtOf v = rt
+  loadTrap : ∀ opcode fn rt m ea t, lookupAssoc Gen.loadTable opcode = some (fn, rt) → ns.loadS opcode m ea = .trap t → ns.loadT fn m ea = .trap t
+  storeRef : ∀ opcode fn m ea v m', lookupAssoc Gen.storeTable opcode = some fn → ns.storeS opcode m ea v = .val m' → ns.storeT fn m ea v = .val m'
+  storeTrap : ∀ opcode fn m ea v t, lookupAssoc Gen.storeTable opcode = some fn → ns.storeS opcode m ea v = .trap t → ns.storeT fn m ea v = .trap t
+  growTyped : ∀ m d, vtOf (ns.grow m d).2 = .i32
+
+def JumpOK (lab : Label) (base : Nat) (stk stkB : List Val) (locB : Store) (σ σ' : MSt) : Prop :=
+  σ'.store = locB ∧ SlotsBelow lab.height σ σ' ∧ stkB.take base = stk.take base ∧ lab.height ≤ stkB.length ∧
   (∀ ty, lab.type = some ty → ∃ v, stkB.getLast? = some v ∧ σ'.get ⟨ty, lab.height⟩ = v)
 
 def SimRes (ctx : Ctx) (st : St) (stk : List Val) (σ : MSt) (stOut : St) (dead : Bool) (r : ERes) (m : MRes) : Prop :=
@@ -51,7 +66,7 @@ def SimRes (ctx : Ctx) (st : St) (stk : List Val) (σ : MSt) (stOut : St) (dead 
   | .trap t => m = .trap t
   | .normal stk' loc' =>
     dead = false ∧ WF stOut ∧ stOut.labels = st.labels ∧ st.next ≤ stOut.next ∧ LocTyped ctx loc' ∧
-    ∃ σ', m = .normal σ' ∧ Rel stOut.stack stk' σ' ∧ σ'.locals = loc' ∧ SlotsBelow st.base σ σ' ∧ stk'.take st.base = stk.take st.base
+    ∃ σ', m = .normal σ' ∧ Rel stOut.stack stk' σ' ∧ σ'.store = loc' ∧ SlotsBelow st.base σ σ' ∧ stk'.take st.base = stk.take st.base
   | .branch l stkB locB =>
     LocTyped ctx locB ∧ ∃ lab σ', st.label l = some lab ∧ m = .jump lab.index σ' ∧ JumpOK lab st.base stk stkB locB σ σ' ∧
       (lab.type.isSome → 1 ≤ stOut.declLen)
